@@ -50,6 +50,18 @@ func GenLockScript(r *Rng, hist map[string]int) []string {
 			c = genCfg(r, o, hist)
 			add("open %s", c)
 			add("dump")
+		case 4:
+			// a finished merge waits in the side directory for the next Open: a rejected Open must leave it alone
+			add("del %s", engKeys[r.Intn(5)])
+			add("merge")
+			add("files")
+			add("open2 %s", genCfg(r, o2, hist))
+			add("files")
+			if r.Chance(1, 2) {
+				add("openchild %s", genCfg(r, o2, hist))
+				add("files")
+			}
+			hist["lock_rejected_open_with_pending_merge"]++
 		default:
 			add("put %s @%d:%d", engKeys[r.Intn(5)], 1+r.Intn(30), r.Intn(9999))
 		}
